@@ -24,7 +24,7 @@ def menu():
     return [
         ('ul>li*2', {}),
         ('p*', {'text': ['a', '', 'b']}),
-        ('a[', {'text': ['w', 'v']}),                                         # raises in the parser, with wrap text present
+        ('a[b="c', {'text': ['w', 'v']}),                                      # raises in the parser, with wrap text present
         ('bad', {'text': 'hello', 'snippets': {'bad': 'a+*'}}),               # raises during snippet resolution
         ('.b>.-e+.-f_m', {'options': {'bem.enabled': True}}),
         ('p10', {'type': 'stylesheet', 'options': {'stylesheet.intUnit': 'pt'}}),
